@@ -328,3 +328,54 @@ def verbatim(rep, prog, rule="VERBATIM"):
         else:
             rep.violation(rule, "%Z", "the default case handed to write_str is %s on every path: the abbreviation is case-mapped even "
                           "without a flag (Pacific/Guam prints CHST for ChST)" % (variants or show(d, maxd=3)), loc)
+
+
+# ------------------------------------------------------------------------------------------------------------------
+def minute_offset_print(rep, prog, rule="OFFSET-CIVIL"):
+    """RFC 2822 text carries an offset to the minute and nothing else to recover the exact offset from"""
+    from .guards import guards, strip_not
+    rep.rule(rule, "rfc2822::DateTimePrinter::print_zoned hands print_civil_with_offset a civil datetime computed from the zoned "
+                   "datetime's instant with the very offset it prints, and that offset is minute-rounded (Offset::round) - except "
+                   "on the path that is taken for a negative year, which is an error. With the datetime and the exact offset of the "
+                   "zoned datetime, a sub-minute offset (-00:44:30) prints a local time and a rounded offset (-0045) that are up to "
+                   "30 s apart, so the text parses back to a different instant")
+    f = prog.fns.get("jiff::fmt::rfc2822::DateTimePrinter::print_zoned")
+    if f is None:
+        rep.violation(rule, "print_zoned", "anchor missing: fmt::rfc2822::DateTimePrinter::print_zoned", "src/fmt/rfc2822.rs")
+        return
+    T = Terms(f)
+    cfg = mir.CFG(f)
+    strip = lambda t_: t_[1] if isinstance(t_, tuple) and t_ and t_[0] in ("ref", "deref") else t_
+    n = 0
+    for bi, t in mir.iter_calls(f):
+        if not t.get("path", "").endswith("::print_civil_with_offset"):
+            continue
+        n += 1
+        key = "print_zoned call#%d" % n
+        loc = "%s:%s" % (t["span"]["file"], t["span"]["line"])
+        neg_year = False
+        for (c, truth, _sb) in guards(f, cfg, T, bi):
+            c2, t2 = strip_not(c, truth)
+            if isinstance(c2, tuple) and c2 and c2[0] == "bin" and c2[1] in ("Lt", "Ge") and c2[3] == ("const", 0) \
+                    and any(isinstance(y, tuple) and y and y[0] == "call" and y[1].rsplit("::", 1)[-1] == "year" for y in walk(c2[2])) \
+                    and ((c2[1] == "Lt") == (t2 is True)):
+                neg_year = True
+        if neg_year:
+            rep.ok(rule, key, how="reached only for a negative year (the callee's error path)", loc=loc)
+            continue
+        dt, off = T.at_call(bi, t, 1), T.at_call(bi, t, 2)
+        offs = [strip(y[2][0]) for y in walk(dt) if isinstance(y, tuple) and y and y[0] == "call" and y[1].endswith("Offset::to_datetime")]
+        printed = None
+        for y in walk(off):
+            if isinstance(y, tuple) and y and y[0] == "agg" and y[2] == "Some":
+                printed = strip(dict(y[3])["0"])
+        rounded = printed is not None and any(isinstance(y, tuple) and y and y[0] == "call" and y[1].endswith("Offset::round") for y in walk(printed))
+        if offs and printed is not None and all(o == printed for o in offs) and rounded:
+            rep.ok(rule, key, how="civil time = to_datetime(minute-rounded offset, instant), the same offset is printed", loc=loc)
+        else:
+            rep.violation(rule, key, "the civil datetime is %s and the offset printed is %s (civil time from the printed offset: %s, "
+                          "minute-rounded before use: %s): with a sub-minute offset the text denotes a different instant "
+                          "(1970-01-01T00:00-00:44:30 prints `00:00:00 -0045`, which is 00:45:00Z)"
+                          % (show(dt, maxd=3)[:70], show(printed, maxd=3)[:50] if printed is not None else "?",
+                             bool(offs) and all(o == printed for o in offs), rounded), loc)
+    rep.floor(rule + " calls", n, 1)
